@@ -1204,6 +1204,7 @@ def _run(ck, rng, thorough, klass, tk, systems, fresh, chk, coq_ok):
             if q is not None:
                 tasks.append((before, q))
                 where.append((ops, i, ans))
+    n_before_exh = len(tasks)
     flat = []
     for op0, (precs, kids) in zip(EXH_ALPHABET, trees):
         p = precs[0]
@@ -1226,13 +1227,46 @@ def _run(ck, rng, thorough, klass, tk, systems, fresh, chk, coq_ok):
         if q is not None:
             tasks.append((before, q))
             where.append((h, len(h) - 1, ans))
+    n_exh_tasks = len(tasks) - n_before_exh
     fa = fresh.answers(tasks)
     T["oracle"] = time.time()
     ndis = 0
-    for (ops, i, ans), f in zip(where, fa):
+    n_random_tasks = len(tasks) - n_exh_tasks
+    table = {}
+    for j, ((ops, i, ans), f) in enumerate(zip(where, fa)):
+        if j >= n_random_tasks:
+            table[repr(ops)] = (ans, f)
         if f != ans:
             ndis += 1
-            disc.append((ops, i, ans, f))
+            if j < n_random_tasks:
+                disc.append((ops, i, ans, f))
+    # exhaustive histories: every subsequence of an explored history was explored too, so the
+    # minimal discrepant sub-history is looked up, not re-run
+    import itertools
+    n_lookup = 0
+    seen_min = set()
+    for j in range(n_random_tasks, len(where)):
+        ops, i, ans = where[j]
+        if fa[j] == ans:
+            continue
+        best = None
+        body = ops[:-1]
+        for n in range(0, len(body) + 1):
+            for idx in itertools.combinations(range(len(body)), n):
+                cand = [body[k] for k in idx] + [ops[-1]]
+                rf = table.get(repr(cand))
+                if rf is not None and rf[0] != rf[1]:
+                    best = (cand, rf)
+                    break
+            if best:
+                break
+        if best is None:
+            disc.append((ops, i, ans, fa[j]))
+        elif repr(best[0]) not in seen_min:
+            seen_min.add(repr(best[0]))
+            chk.add_minimal(best[0], best[1][0], best[1][1])
+            n_lookup += 1
+    ck.extra["exhaustive_discrepancies_minimised_by_lookup"] = n_lookup
     chk.process(disc, 600 if thorough else 150)
     T["minimise"] = time.time()
     ck.count("oracle-compared-steps", len(tasks))
